@@ -59,7 +59,7 @@ ObsGuards == \A p \in P : (~R.thr[p].busy /\ ~R.thr[p].gone) =>
 \* C16: inside reactivate_after the thread is unpinned iff the guard is the sole live one
 ObsReactAfter == Len(R.ra) = 3 => ((R.ra[2] = 1) = (R.ra[3] > 1))
 \* C16: reactivating a guard that is not the only live one changes nothing: the announcement stays
-ObsReactNonSole == (HasPrev /\ R.t # 0 /\ R.thr[R.t].nonsole /\ Q.thr[R.t].nonsole) =>
+ObsReactNonSole == (HasPrev /\ R.t # 0 /\ (R.thr[R.t].nonsole \/ Q.thr[R.t].nonsole)) =>
                      /\ R.thr[R.t].lep = Q.thr[R.t].lep /\ R.thr[R.t].pin /\ Q.thr[R.t].pin
 \* C15: captured data intact; at the end every deferred function ran exactly once
 ObsData == \A k \in 1..NTk(R) : R.task[k].bad = 0
